@@ -10,7 +10,7 @@ def project(raw):
 
 
 def oracle(ctx):
-    return oracles.o_views(ctx) + oracles.o_document_concat(ctx)
+    return oracles.o_views(ctx) + oracles.o_document_concat(ctx) + oracles.o_views_after_edit(ctx)
 
 
 SPEC = docsweep.Spec(
